@@ -9,6 +9,8 @@ package main
 
 import (
 	"fmt"
+	"os"
+	"path/filepath"
 	"sort"
 	"strings"
 
@@ -27,17 +29,20 @@ type T struct {
 }
 
 type P struct {
+	Sub     string `json:"subrepo,omitempty"`
 	Pkg     string `json:"pkg"`
 	Targets []T    `json:"targets"`
 }
 
 type L struct {
+	Sub  string `json:"subrepo,omitempty"`
 	Pkg  string `json:"pkg"`
 	Name string `json:"name"`
 }
 
 type input struct {
 	Kind      string   `json:"kind"`
+	Cur       string   `json:"started_in_package"` // core.InitialPackagePath: the package plz was started in
 	Graph     []P      `json:"graph,omitempty"`
 	Include   []string `json:"include"`
 	Exclude   []string `json:"exclude"`
@@ -116,44 +121,122 @@ func refCarriesGroup(t T, group string, mode refMode) bool {
 }
 
 func refIsExpression(x string) bool {
-	return strings.HasPrefix(x, "//") || strings.HasPrefix(x, ":")
+	return strings.HasPrefix(x, "//") || strings.HasPrefix(x, ":") ||
+		(strings.HasPrefix(x, "@") && (strings.Contains(x, ":") || strings.Contains(x, "//")))
 }
 
-// refDenotes: does the build expression (host repository forms) denote target //pkg:name ?
-func refDenotes(expr, pkg, name string) bool {
-	body := strings.TrimPrefix(expr, "//")
-	if i := strings.IndexByte(body, ':'); i >= 0 {
-		epkg, ename := body[:i], body[i+1:]
-		if ename == "all" {
-			return pkg == epkg
-		}
-		return pkg == epkg && name == ename
+func refPlainName(x string) bool {
+	if x == "" || x[0] == '.' {
+		return x == "..."
 	}
-	if body == "..." {
+	for i := 0; i < len(x); i++ {
+		c := x[i]
+		if !(c >= 'a' && c <= 'z' || c >= 'A' && c <= 'Z' || c >= '0' && c <= '9' || c == '_' || c == '-' || c == '.' || c == '#' || c == '+') {
+			return false
+		}
+	}
+	return !strings.HasSuffix(x, "._build") && !strings.HasSuffix(x, "._test")
+}
+
+func refPlainPackage(x string) bool {
+	if x == "" {
 		return true
 	}
-	if strings.HasSuffix(body, "/...") {
-		epkg := strings.TrimSuffix(body, "/...")
-		return pkg == epkg || strings.HasPrefix(pkg, epkg+"/")
+	for _, comp := range strings.Split(x, "/") {
+		if !refPlainName(comp) || comp == "..." {
+			return false
+		}
 	}
-	// //pkg is short for //pkg:<last component>
-	ename := body
-	if i := strings.LastIndexByte(body, '/'); i >= 0 {
-		ename = body[i+1:]
+	return true
+}
+
+// refRead: the documented reading of an exclude build expression given while plz runs in package cur:
+//
+//	:name                                 //cur:name   (:all = every target of cur, :... = cur and everything below)
+//	//pkg:name  //pkg:all  //pkg/...  //... //pkg      in the host repository (//pkg = //pkg:<last component>)
+//	///sub//pkg:name  @sub//pkg:name  (and the :all, /..., short forms)   in subrepo sub;  @sub:name = ///sub//:name
+//
+// ok=false: not one of the documented forms with plain names (the oracle does not judge such an input).
+func refRead(cur, expr string) (L, bool) {
+	switch {
+	case strings.HasPrefix(expr, ":"):
+		name := expr[1:]
+		return L{"", cur, name}, refPlainName(name) && refPlainPackage(cur)
+	case strings.HasPrefix(expr, "///"), strings.HasPrefix(expr, "@"):
+		body := strings.TrimPrefix(strings.TrimPrefix(expr, "///"), "@")
+		if i := strings.Index(body, "//"); i >= 0 {
+			l, ok := refRead(cur, body[i:])
+			l.Sub = body[:i]
+			return l, ok && refPlainPackage(l.Sub) && l.Sub != "" && !strings.HasPrefix(body[i:], "///")
+		}
+		if i := strings.IndexByte(body, ':'); i >= 0 {
+			return L{body[:i], "", body[i+1:]}, refPlainPackage(body[:i]) && body[:i] != "" && refPlainName(body[i+1:]) && body[i+1:] != "..."
+		}
+		return L{}, false
+	case strings.HasPrefix(expr, "//"):
+		body := expr[2:]
+		if i := strings.IndexByte(body, ':'); i >= 0 {
+			return L{"", body[:i], body[i+1:]}, refPlainPackage(body[:i]) && refPlainName(body[i+1:]) && body[i+1:] != "..."
+		}
+		if body == "..." {
+			return L{"", "", "..."}, true
+		}
+		if strings.HasSuffix(body, "/...") {
+			pkg := strings.TrimSuffix(body, "/...")
+			return L{"", pkg, "..."}, refPlainPackage(pkg) && pkg != ""
+		}
+		name := body
+		if i := strings.LastIndexByte(body, '/'); i >= 0 {
+			name = body[i+1:]
+		}
+		return L{"", body, name}, refPlainPackage(body) && body != ""
 	}
-	if ename == "all" {
-		return pkg == body
+	return L{}, false
+}
+
+// subrepoBlind: the reading of the known defect exclude-expression-ignores-subrepo (BuildLabel.Includes does not
+// compare Subrepo).  Only used to put a NAME on a deviation that was already detected with the documented reading.
+var subrepoBlind = false
+
+// refDenotesL: does the expression read as e denote the target that ?
+func refDenotesL(e, that L) bool {
+	if e.Sub != that.Sub && !subrepoBlind {
+		return false
 	}
-	return pkg == body && name == ename
+	switch e.Name {
+	case "...":
+		return e.Pkg == "" || that.Pkg == e.Pkg || strings.HasPrefix(that.Pkg, e.Pkg+"/")
+	case "all":
+		return that.Pkg == e.Pkg
+	}
+	return that.Pkg == e.Pkg && that.Name == e.Name
+}
+
+// refDenotes: does the build expression, given in package cur, denote `that` ?  (false for an undocumented form)
+func refDenotes(cur, expr string, that L) bool {
+	e, ok := refRead(cur, expr)
+	return ok && refDenotesL(e, that)
+}
+
+// documentedForms: every exclude expression of the list is one of the documented forms
+func documentedForms(cur string, exclude []string) bool {
+	for _, e := range exclude {
+		if refIsExpression(e) {
+			if _, ok := refRead(cur, e); !ok {
+				return false
+			}
+		}
+	}
+	return true
 }
 
 // labelsOnly: BuildTarget.ShouldInclude is below the level where build expressions are recognised
 var labelsOnly = false
 
-func refSelected(pkg string, t T, include, exclude []string, mode refMode) bool {
+func refSelected(cur string, p P, t T, include, exclude []string, mode refMode) bool {
 	for _, e := range exclude {
 		if !labelsOnly && refIsExpression(e) {
-			if refDenotes(e, pkg, t.Name) {
+			if refDenotes(cur, e, L{p.Sub, p.Pkg, t.Name}) {
 				return false
 			}
 		} else if refCarriesGroup(t, e, mode) {
@@ -171,15 +254,59 @@ func refSelected(pkg string, t T, include, exclude []string, mode refMode) bool 
 	return false
 }
 
-// refCovers: is package pkg covered by the pseudo label l (:all or ...) ?
-func refCovers(l L, pkg string) bool {
+// keyEllipsis: the reading of the known defect subrepo-ellipsis-ranges-over-printed-keys (the `...` branch of
+// expandOriginalPseudoTarget matches the label's package against `@sub//pkg` keys and ignores the label's subrepo).
+var keyEllipsis = false
+
+// refCovers: is package p covered by the pseudo label l (:all or ...) ?  A label ranges over its own repository.
+func refCovers(l L, p P) bool {
 	if l.Name == "all" {
-		return l.Pkg == pkg
+		return l.Sub == p.Sub && l.Pkg == p.Pkg
 	}
-	return l.Pkg == "" || l.Pkg == pkg || strings.HasPrefix(pkg, l.Pkg+"/")
+	if keyEllipsis {
+		key := p.Pkg
+		if p.Sub != "" {
+			key = "@" + p.Sub + "//" + p.Pkg
+		}
+		return l.Pkg == "" || l.Pkg == key || strings.HasPrefix(key, l.Pkg+"/")
+	}
+	return l.Sub == p.Sub && (l.Pkg == "" || l.Pkg == p.Pkg || strings.HasPrefix(p.Pkg, l.Pkg+"/"))
 }
 
-func refExpand(g []P, include, exclude []string, labels []L, needTests bool, mode refMode) []L {
+func lessL(a, b L) bool {
+	if a.Sub != b.Sub {
+		return a.Sub < b.Sub
+	}
+	if a.Pkg != b.Pkg {
+		return a.Pkg < b.Pkg
+	}
+	return a.Name < b.Name
+}
+
+// refOriginals: AddOriginalTarget drops a requested label that an exclude expression covers as a whole
+func refOriginals(cur string, exclude []string, labels []L) []L {
+	kept := []L{}
+	for _, l := range labels {
+		dropped := false
+		for _, e := range exclude {
+			if refIsExpression(e) {
+				probe := l
+				if l.Name == "all" {
+					probe.Name = "\x00any" // the expression must denote the whole package
+				}
+				if refDenotes(cur, e, probe) {
+					dropped = true
+				}
+			}
+		}
+		if !dropped {
+			kept = append(kept, l)
+		}
+	}
+	return kept
+}
+
+func refExpand(cur string, g []P, include, exclude []string, labels []L, needTests bool, mode refMode) []L {
 	out := []L{}
 	for _, l := range labels {
 		if l.Name != "all" && l.Name != "..." {
@@ -188,21 +315,16 @@ func refExpand(g []P, include, exclude []string, labels []L, needTests bool, mod
 		}
 		part := []L{}
 		for _, p := range g {
-			if !refCovers(l, p.Pkg) {
+			if !refCovers(l, p) {
 				continue
 			}
 			for _, t := range p.Targets {
-				if refSelected(p.Pkg, t, include, exclude, mode) && (!needTests || t.Test) {
-					part = append(part, L{p.Pkg, t.Name})
+				if refSelected(cur, p, t, include, exclude, mode) && (!needTests || t.Test) {
+					part = append(part, L{p.Sub, p.Pkg, t.Name})
 				}
 			}
 		}
-		sort.Slice(part, func(i, j int) bool {
-			if part[i].Pkg != part[j].Pkg {
-				return part[i].Pkg < part[j].Pkg
-			}
-			return part[i].Name < part[j].Name
-		})
+		sort.Slice(part, func(i, j int) bool { return lessL(part[i], part[j]) })
 		out = append(out, part...)
 	}
 	return out
@@ -241,8 +363,8 @@ func knownShape(t T, include, exclude []string) bool {
 // ----------------------------------------------------------------------------------------------
 // the implementation
 
-func realTarget(pkg string, t T) *core.BuildTarget {
-	bt := core.NewBuildTarget(core.BuildLabel{PackageName: pkg, Name: t.Name})
+func realTarget(sub, pkg string, t T) *core.BuildTarget {
+	bt := core.NewBuildTarget(core.BuildLabel{Subrepo: sub, PackageName: pkg, Name: t.Name})
 	bt.Labels = append([]string{}, t.Labels...)
 	if t.Test {
 		bt.Test = &core.TestFields{}
@@ -252,9 +374,9 @@ func realTarget(pkg string, t T) *core.BuildTarget {
 
 func fillGraph(graph *core.BuildGraph, g []P, r *lib.Rng) {
 	for _, p := range g {
-		pkg := core.NewPackage(p.Pkg)
+		pkg := core.NewPackageSubrepo(p.Pkg, p.Sub)
 		for _, t := range p.Targets {
-			bt := realTarget(p.Pkg, t)
+			bt := realTarget(p.Sub, p.Pkg, t)
 			pkg.AddTarget(bt)
 			graph.AddTarget(bt)
 		}
@@ -262,10 +384,14 @@ func fillGraph(graph *core.BuildGraph, g []P, r *lib.Rng) {
 	}
 }
 
+func toLabel(l L) core.BuildLabel {
+	return core.BuildLabel{Subrepo: l.Sub, PackageName: l.Pkg, Name: l.Name}
+}
+
 func toLabels(ls []L) []core.BuildLabel {
 	out := make([]core.BuildLabel, len(ls))
 	for i, l := range ls {
-		out[i] = core.BuildLabel{PackageName: l.Pkg, Name: l.Name}
+		out[i] = toLabel(l)
 	}
 	return out
 }
@@ -273,15 +399,34 @@ func toLabels(ls []L) []core.BuildLabel {
 func fromLabels(ls []core.BuildLabel) []L {
 	out := make([]L, len(ls))
 	for i, l := range ls {
-		if l.Subrepo != "" {
-			panic("subrepo label in output: " + l.String())
-		}
-		out[i] = L{l.PackageName, l.Name}
+		out[i] = L{l.Subrepo, l.PackageName, l.Name}
 	}
 	return out
 }
 
+// startIn makes the process look as if plz had been started in package cur of some repository: that is all
+// parseMaybeRelativeBuildLabel learns from MustFindRepoRoot (core.RepoRoot set: no search) and core.InitialPackagePath.
+func startIn(cur string) {
+	core.RepoRoot = "/nonexistent/c36-repo-root"
+	core.InitialPackagePath = cur
+}
+
+// realRel: parseMaybeRelativeBuildLabel(x, "") reached through the exported BuildLabel.UnmarshalFlag, which leaves
+// the label untouched on an error when PLZ_COMPLETE is set (and would log.Fatalf otherwise).
+func realRel(cur, x string) (L, bool) {
+	startIn(cur)
+	var l core.BuildLabel
+	if x == "-" {
+		return L{}, false
+	}
+	if err := l.UnmarshalFlag(x); err != nil || l == (core.BuildLabel{}) {
+		return L{}, false
+	}
+	return L{l.Subrepo, l.PackageName, l.Name}, true
+}
+
 func realExpand(in input) []L {
+	startIn(in.Cur)
 	state := &core.BuildState{Graph: core.NewGraph(), NeedTests: in.NeedTests}
 	fillGraph(state.Graph, in.Graph, nil)
 	state.SetIncludeAndExclude(in.Include, in.Exclude)
@@ -289,6 +434,7 @@ func realExpand(in input) []L {
 }
 
 func realOriginals(in input) []L {
+	startIn(in.Cur)
 	state := core.NewDefaultBuildState()
 	state.NeedTests = in.NeedTests
 	fillGraph(state.Graph, in.Graph, nil)
@@ -299,15 +445,11 @@ func realOriginals(in input) []L {
 	return fromLabels(state.ExpandOriginalLabels())
 }
 
-// usable: SetIncludeAndExclude calls log.Fatalf on an exclude that looks like a label and does not parse, and
-// needs the repository root for ':' forms; the model covers host-repository `//` forms.
-func usable(exclude []string) bool {
+// usable: SetIncludeAndExclude calls log.Fatalf on an exclude that looks like a label and does not parse
+func usable(cur string, exclude []string) bool {
 	for _, e := range exclude {
 		if core.LooksLikeABuildLabel(e) {
-			if !strings.HasPrefix(e, "//") || strings.HasPrefix(e, "///") {
-				return false
-			}
-			if l, err := core.TryParseBuildLabel(e, "", ""); err != nil || l.Subrepo != "" {
+			if _, ok := realRel(cur, e); !ok {
 				return false
 			}
 		}
@@ -329,12 +471,12 @@ func coqGraph(g []P) string {
 		for _, t := range p.Targets {
 			ts = append(ts, coqT(t))
 		}
-		ps = append(ps, lib.Pair(lib.Str(p.Pkg), lib.List(ts)))
+		ps = append(ps, "("+lib.Str(p.Sub)+", "+lib.Str(p.Pkg)+", "+lib.List(ts)+")")
 	}
 	return lib.List(ps)
 }
 
-func coqL(l L) string { return lib.Pair(lib.Str(l.Pkg), lib.Str(l.Name)) }
+func coqL(l L) string { return "(" + lib.Str(l.Sub) + ", " + lib.Str(l.Pkg) + ", " + lib.Str(l.Name) + ")" }
 
 func coqLs(ls []L) string {
 	out := []string{}
@@ -354,6 +496,8 @@ var patternPool = []string{"go", "go*", "g*", "go_*", "got", "py*", "python", "p
 	"tests", "tests*", "manual", "manual:*", "manual*", "slow", "go**", "a", "b", "@z", "@*", "tex*", "est*", "x*"}
 
 var pkgPool = []string{"", "a", "a/b", "a/bc", "ab", "a/b/c", "c", "c/a"}
+var subPool = []string{"s", "s/t", "a", "third_party/s"}
+var curPool = []string{"", "", "a", "a/b", "c", "ab", "x/y"}
 var namePool = []string{"a", "b", "bc", "c", "lib", "lib_test", "x", "all"}
 
 func genLabels(r *lib.Rng) []string {
@@ -406,47 +550,112 @@ func genGroups(r *lib.Rng, t *T) []string {
 	return out
 }
 
-func genExpr(r *lib.Rng, g []P) string {
+// genExpr: an exclude build expression aimed at the graph: absolute, relative to cur (`:name`, `:all`, `:...`), or
+// naming a subrepo (`///sub//pkg:name`, `@sub//pkg:name`, `@sub:name`); often the SAME package and name in another
+// repository than the target's, and the same name in the root package / in cur.
+func genExpr(r *lib.Rng, cur string, g []P) string {
 	pkg := lib.Pick(r, pkgPool)
 	name := lib.Pick(r, namePool)
+	sub := ""
 	if len(g) > 0 && r.Chance(3, 4) {
 		p := lib.Pick(r, g)
-		pkg = p.Pkg
+		pkg, sub = p.Pkg, p.Sub
 		if len(p.Targets) > 0 && r.Chance(3, 4) {
 			name = lib.Pick(r, p.Targets).Name
 		}
 	}
+	if r.Chance(1, 5) {
+		// the other repository
+		if sub == "" {
+			sub = lib.Pick(r, subPool)
+		} else {
+			sub = lib.Pick(r, []string{"", lib.Pick(r, subPool)})
+		}
+	}
+	prefix := "//"
+	if sub != "" {
+		prefix = lib.Pick(r, []string{"///", "@"}) + sub + "//"
+	}
+	if sub == "" && r.Chance(1, 4) {
+		// relative to the package plz was started in
+		switch r.Intn(6) {
+		case 0:
+			return ":all"
+		case 1:
+			return ":..."
+		default:
+			return ":" + name
+		}
+	}
 	switch r.Intn(8) {
 	case 0, 1, 2:
-		return "//" + pkg + ":" + name
+		return prefix + pkg + ":" + name
 	case 3:
-		return "//" + pkg + ":all"
+		return prefix + pkg + ":all"
 	case 4, 5:
 		if pkg == "" {
-			return "//..."
+			return prefix + "..."
 		}
-		return "//" + pkg + "/..."
+		return prefix + pkg + "/..."
 	case 6:
 		if pkg == "" {
-			return "//:" + name
+			if sub != "" && r.Chance(1, 2) {
+				return "@" + sub + ":" + name
+			}
+			return prefix + ":" + name
 		}
-		return "//" + pkg // short form
+		return prefix + pkg // short form
 	default:
 		// the parent package, recursively
 		if i := strings.LastIndexByte(pkg, '/'); i > 0 {
-			return "//" + pkg[:i] + "/..."
+			return prefix + pkg[:i] + "/..."
 		}
-		return "//" + pkg + ":" + name
+		return prefix + pkg + ":" + name
 	}
 }
 
-func genExcludes(r *lib.Rng, g []P, t *T) []string {
+func genExcludes(r *lib.Rng, cur string, g []P, t *T) []string {
 	out := genGroups(r, t)
 	n := lib.Pick(r, []int{0, 0, 0, 1, 1, 2})
 	for i := 0; i < n; i++ {
-		out = append(out, genExpr(r, g))
+		out = append(out, genExpr(r, cur, g))
 	}
 	lib.Shuffle(r, out)
+	return out
+}
+
+// genCur: the package plz was started in: mostly a package of the graph (so that relative expressions hit something)
+func genCur(r *lib.Rng, g []P) string {
+	if len(g) > 0 && r.Chance(1, 2) {
+		return lib.Pick(r, g).Pkg
+	}
+	return lib.Pick(r, curPool)
+}
+
+// withSubrepos: re-home some packages of the graph into a subrepo, often keeping a host package of the same name
+func withSubrepos(r *lib.Rng, g []P) []P {
+	out := append([]P{}, g...)
+	sub := lib.Pick(r, subPool[:2])
+	for _, p := range g {
+		switch r.Intn(4) {
+		case 0:
+			// a twin of the package in the subrepo: same names, fresh labels
+			q := P{Sub: sub, Pkg: p.Pkg, Targets: []T{}}
+			for _, t := range p.Targets {
+				q.Targets = append(q.Targets, genTarget(r, t.Name))
+			}
+			if r.Chance(1, 2) {
+				q.Targets = append(q.Targets, genTarget(r, "only_in_sub"))
+			}
+			out = append(out, q)
+		case 1:
+			for i := range out {
+				if out[i].Pkg == p.Pkg && out[i].Sub == "" {
+					out[i].Sub = sub
+				}
+			}
+		}
+	}
 	return out
 }
 
@@ -478,27 +687,42 @@ func genPseudo(r *lib.Rng, g []P) []L {
 	n := lib.Pick(r, []int{1, 1, 1, 2, 3})
 	out := []L{}
 	for i := 0; i < n; i++ {
-		pkg := lib.Pick(r, pkgPool)
+		pkg, sub := lib.Pick(r, pkgPool), ""
 		if r.Chance(4, 5) {
-			pkg = lib.Pick(r, g).Pkg
+			p := lib.Pick(r, g)
+			pkg, sub = p.Pkg, p.Sub
 		}
 		switch r.Intn(6) {
 		case 0, 1, 2:
-			out = append(out, L{pkg, "all"})
+			out = append(out, L{sub, pkg, "all"})
 		case 3:
-			out = append(out, L{pkg, "..."})
+			out = append(out, L{sub, pkg, "..."})
 		case 4:
 			if i := strings.LastIndexByte(pkg, '/'); i > 0 {
 				pkg = pkg[:i]
 			} else {
 				pkg = ""
 			}
-			out = append(out, L{pkg, "..."})
+			out = append(out, L{sub, pkg, "..."})
 		default:
-			out = append(out, L{pkg, lib.Pick(r, namePool[:7])})
+			out = append(out, L{sub, pkg, lib.Pick(r, namePool[:7])})
 		}
 	}
 	return out
+}
+
+func hasSubrepos(g []P, ls []L) bool {
+	for _, p := range g {
+		if p.Sub != "" {
+			return true
+		}
+	}
+	for _, l := range ls {
+		if l.Sub != "" {
+			return true
+		}
+	}
+	return false
 }
 
 // ----------------------------------------------------------------------------------------------
@@ -516,9 +740,21 @@ func sameLs(a, b []L) bool {
 	return true
 }
 
+// expected: the documented selection for the input (kind "originals": after the up-front drop of requested labels)
+func expected(in input, mode refMode) []L {
+	labels := in.Labels
+	if in.Kind == "originals" {
+		labels = refOriginals(in.Cur, in.Exclude, labels)
+	}
+	return refExpand(in.Cur, in.Graph, in.Include, in.Exclude, labels, in.NeedTests, mode)
+}
+
 func checkExpansion(c *lib.Ctx, in input, got []L) {
+	if !documentedForms(in.Cur, in.Exclude) {
+		return // an exclude expression outside the documented forms: the oracle has no reading of it
+	}
 	c.Oracle()
-	want := refExpand(in.Graph, in.Include, in.Exclude, in.Labels, in.NeedTests, documented)
+	want := expected(in, documented)
 	if sameLs(got, want) {
 		return
 	}
@@ -535,11 +771,12 @@ func checkExpansion(c *lib.Ctx, in input, got []L) {
 	known := false
 	for _, p := range in.Graph {
 		for _, t := range p.Targets {
-			if requested[L{p.Pkg, t.Name}] {
+			l := L{p.Sub, p.Pkg, t.Name}
+			if requested[l] {
 				continue // asked for by name: not subject to the filters
 			}
-			if sel[L{p.Pkg, t.Name}] && !refSelected(p.Pkg, t, nil, in.Exclude, documented) && !knownShape(t, nil, in.Exclude) {
-				c.Fail("excluded-target-selected", fmt.Sprintf("//%s:%s is selected although an --exclude argument covers it", p.Pkg, t.Name), in)
+			if sel[l] && !refSelected(in.Cur, p, t, nil, in.Exclude, documented) && !knownShape(t, nil, in.Exclude) {
+				c.Fail("excluded-target-selected", fmt.Sprintf("%s is selected although an --exclude argument (given in package %q) covers it", toLabel(l), in.Cur), in)
 				return
 			}
 			if knownShape(t, in.Include, in.Exclude) {
@@ -547,14 +784,65 @@ func checkExpansion(c *lib.Ctx, in input, got []L) {
 			}
 		}
 	}
-	if known && sameLs(got, refExpand(in.Graph, in.Include, in.Exclude, in.Labels, in.NeedTests, implicitExactOnly)) {
+	// the two known subrepo defects: name the deviation when the observed selection is exactly what the defect predicts
+	if hasSubrepos(in.Graph, in.Labels) || excludeNamesSubrepo(in.Cur, in.Exclude) {
+		try := func(blind, key bool) bool {
+			subrepoBlind, keyEllipsis = blind, key
+			defer func() { subrepoBlind, keyEllipsis = false, false }()
+			return sameLs(got, expected(in, documented))
+		}
+		ellipsis := false
+		for _, l := range in.Labels {
+			if l.Name == "..." {
+				ellipsis = true
+			}
+		}
+		if try(true, false) {
+			c.Fail("exclude-expression-ignores-subrepo",
+				fmt.Sprintf("started in %q, exclude=%q labels=%v: selected %v, documented rule selects %v (an exclude expression removed targets with the same package and name in ANOTHER repository: BuildLabel.Includes does not compare Subrepo)",
+					in.Cur, in.Exclude, in.Labels, got, want), in)
+			return
+		}
+		if ellipsis && try(false, true) {
+			c.Fail("subrepo-ellipsis-ranges-over-printed-keys",
+				fmt.Sprintf("labels=%v over packages %v: expanded to %v, documented rule selects %v (the ... branch of expandOriginalPseudoTarget matches the label's package against PackageMap keys `@sub//pkg` and ignores the label's subrepo)",
+					in.Labels, pkgNames(in.Graph), got, want), in)
+			return
+		}
+		if ellipsis && try(true, true) {
+			c.Fail("subrepo-ellipsis-ranges-over-printed-keys",
+				fmt.Sprintf("labels=%v exclude=%q over packages %v: expanded to %v, documented rule selects %v (the ... branch matches PackageMap keys `@sub//pkg`; together with exclude-expression-ignores-subrepo)",
+					in.Labels, in.Exclude, pkgNames(in.Graph), got, want), in)
+			return
+		}
+	}
+	if known && sameLs(got, expected(in, implicitExactOnly)) {
 		c.Fail("wildcard-misses-implicit-test-label",
 			fmt.Sprintf("include=%q exclude=%q: selected %v, documented rule selects %v (a wildcard label does not see the implicit `test` label of a test target)",
 				in.Include, in.Exclude, got, want), in)
 		return
 	}
 	c.Fail("selection-differs-from-documented-rule",
-		fmt.Sprintf("include=%q exclude=%q labels=%v need_tests=%v: selected %v, documented rule selects %v", in.Include, in.Exclude, in.Labels, in.NeedTests, got, want), in)
+		fmt.Sprintf("started in %q, include=%q exclude=%q labels=%v need_tests=%v: selected %v, documented rule selects %v", in.Cur, in.Include, in.Exclude, in.Labels, in.NeedTests, got, want), in)
+}
+
+func pkgNames(g []P) []string {
+	out := []string{}
+	for _, p := range g {
+		out = append(out, toLabel(L{p.Sub, p.Pkg, "all"}).String())
+	}
+	return out
+}
+
+func excludeNamesSubrepo(cur string, exclude []string) bool {
+	for _, e := range exclude {
+		if refIsExpression(e) {
+			if l, ok := refRead(cur, e); ok && l.Sub != "" {
+				return true
+			}
+		}
+	}
+	return false
 }
 
 // single target through BuildTarget.ShouldInclude (label groups only)
@@ -562,16 +850,17 @@ func checkTarget(c *lib.Ctx, t T, include, exclude []string, got bool) {
 	c.Oracle()
 	labelsOnly = true
 	defer func() { labelsOnly = false }()
-	want := refSelected("p", t, include, exclude, documented)
+	pp := P{Pkg: "p"}
+	want := refSelected("", pp, t, include, exclude, documented)
 	if got == want {
 		return
 	}
 	in := map[string]any{"kind": "target", "target": t, "include": include, "exclude": exclude, "selected": got, "documented": want}
-	if got && !refSelected("p", t, nil, exclude, documented) && !knownShape(t, nil, exclude) {
+	if got && !refSelected("", pp, t, nil, exclude, documented) && !knownShape(t, nil, exclude) {
 		c.Fail("excluded-target-selected", fmt.Sprintf("target with labels %q (test=%v) is selected by include=%q although exclude=%q covers it", t.Labels, t.Test, include, exclude), in)
 		return
 	}
-	if knownShape(t, include, exclude) && got == refSelected("p", t, include, exclude, implicitExactOnly) {
+	if knownShape(t, include, exclude) && got == refSelected("", pp, t, include, exclude, implicitExactOnly) {
 		c.Fail("wildcard-misses-implicit-test-label",
 			fmt.Sprintf("test target with labels %q, include=%q exclude=%q: ShouldInclude=%v, documented rule says %v (a wildcard label does not see the implicit `test` label)",
 				t.Labels, include, exclude, got, want), in)
@@ -582,7 +871,7 @@ func checkTarget(c *lib.Ctx, t T, include, exclude []string, got bool) {
 }
 
 func realTargetShould(t T, include, exclude []string) bool {
-	return realTarget("p", t).ShouldInclude(include, exclude)
+	return realTarget("", "p", t).ShouldInclude(include, exclude)
 }
 
 func subsetsUpTo(pool []string, k int) [][]string {
@@ -605,18 +894,24 @@ func subsetsUpTo(pool []string, k int) [][]string {
 func main() {
 	lib.Main("C36", func(c *lib.Ctx) {
 		c.Model("From PlzV Require Import Model.C36.", "C36.case", "C36.check")
+		os.Setenv("PLZ_COMPLETE", "1") // BuildLabel.UnmarshalFlag then returns instead of log.Fatalf (see realRel)
 		c.Rule("(1) exhaustive: every target with <=2 declared labels from a 5-label alphabet (shared prefixes, the empty label, `test`) x test/non-test, against every " +
 			"include list and exclude list of <=1 group of <=2 labels or 2 single-label groups over 8 patterns (wildcards, `*`, empty), through BuildTarget.ShouldInclude; " +
 			"(2) random graphs of 1-4 packages (shared name prefixes) x 0-4 targets, include/exclude lists of 0-3 groups of 1-3 labels aimed at the targets' labels " +
 			"(wildcards cut from them, duplicates, empty pieces) plus 0-2 exclude build expressions (:name, :all, /..., short form, parent/...), expanded through " +
 			"SetIncludeAndExclude + ExpandLabels for 1-3 requested labels (:all, /..., exact) with and without NeedTests, and through AddOriginalTarget + ExpandOriginalLabels; " +
 			"(3) HasLabel, Includes, LooksLikeABuildLabel, TryParseBuildLabel on adversarial strings. " +
+			"(4) follow-up: every SetIncludeAndExclude/expansion runs with core.InitialPackagePath set to a generated package (often one of the graph) and exclude expressions " +
+			"relative to it (:name, :all, :...), about a third of the graphs hold subrepo packages (twins of host packages with the same target names) with ///sub//, @sub// and @sub: exclude " +
+			"expressions and requested labels; parseMaybeRelativeBuildLabel (through BuildLabel.UnmarshalFlag), TryParseBuildLabel with a current package, filepath.Join and the PackageMap keys " +
+			"are compared with the model on structured + edited strings; (5) end to end: `plz query alltargets` with --include/--exclude over a generated repository with a subrepo, from the " +
+			"root and from sub-directories, compared with the documented rule. " +
 			"distinct = distinct inputs; non-trivial = at least one include or exclude argument and at least one target both selected and one rejected (expansions), " +
 			"or a wildcard/compound group (single targets)")
 
 		var rep input
 		if c.ReadReplay(&rep) && (rep.Kind == "expand" || rep.Kind == "originals") {
-			if usable(rep.Exclude) {
+			if usable(rep.Cur, rep.Exclude) {
 				var got []L
 				if rep.Kind == "expand" {
 					got = realExpand(rep)
@@ -643,11 +938,11 @@ func main() {
 				c.Case(lib.App("CTarget", lib.StrList(t.Labels), lib.Bool(true), lib.StrList(inc), lib.StrList(exc), lib.Bool(got)),
 					map[string]any{"kind": "target", "target": t, "include": inc, "exclude": exc, "selected": got}, fmt.Sprint("w", ls, inc, exc), true)
 				in := input{Kind: "expand", Graph: []P{{Pkg: "p", Targets: []T{t, {Name: "lib", Labels: ls, Test: false}}}}, Include: inc, Exclude: exc,
-					Labels: []L{{"p", "all"}}}
+					Labels: []L{{"", "p", "all"}}}
 				out := realExpand(in)
 				checkExpansion(c, in, out)
 				in.Out = out
-				c.Case(lib.App("CExpand", coqGraph(in.Graph), lib.StrList(inc), lib.StrList(exc), coqLs(in.Labels), "false", coqLs(out)), in, fmt.Sprint("we", ls, inc, exc), true)
+				c.Case(lib.App("CExpand", lib.Str(""), coqGraph(in.Graph), lib.StrList(inc), lib.StrList(exc), coqLs(in.Labels), "false", coqLs(out)), in, fmt.Sprint("we", ls, inc, exc), true)
 			}
 		}
 
@@ -676,7 +971,7 @@ func main() {
 		for _, ls := range tsets {
 			for _, tst := range []bool{false, true} {
 				t := T{Name: "x", Labels: ls, Test: tst}
-				bt := realTarget("p", t)
+				bt := realTarget("", "p", t)
 				for _, inc := range lists {
 					for _, exc := range lists {
 						got := bt.ShouldInclude(inc, exc)
@@ -724,7 +1019,7 @@ func main() {
 			for _, l := range labelPool {
 				for _, tst := range []bool{false, true} {
 					t := T{Name: "x", Labels: []string{l}, Test: tst}
-					got := realTarget("p", t).HasLabel(p)
+					got := realTarget("", "p", t).HasLabel(p)
 					c.Oracle()
 					want := refCarries(t, p, documented)
 					js := map[string]any{"kind": "has_label", "target": t, "label": p, "has": got, "documented": want}
@@ -745,50 +1040,67 @@ func main() {
 		for _, p := range patternPool {
 			for _, tst := range []bool{false, true} {
 				t := T{Name: "x", Labels: []string{}, Test: tst}
-				got := realTarget("p", t).HasLabel(p)
+				got := realTarget("", "p", t).HasLabel(p)
 				c.Case(lib.App("CHas", "[]", lib.Bool(tst), lib.Str(p), lib.Bool(got)), map[string]any{"kind": "has_label", "target": t, "label": p, "has": got}, fmt.Sprint("h0", p, tst), tst)
 			}
 		}
 
-		// ---- 4. Includes: all pairs (pattern label, target label) over the pools
+		// ---- 4. Includes: all pairs (pattern label, target label) over the pools, in the same and in different repositories
 		exprs := []L{}
 		for _, p := range pkgPool {
 			for _, n := range []string{"all", "...", "a", "lib", "bc"} {
-				exprs = append(exprs, L{p, n})
+				exprs = append(exprs, L{"", p, n})
 			}
 		}
 		thats := []L{}
 		for _, p := range pkgPool {
 			for _, n := range []string{"a", "lib", "all", "bc", ""} {
-				thats = append(thats, L{p, n})
+				thats = append(thats, L{"", p, n})
 			}
 		}
+		exprText := func(e L) string {
+			prefix := "//"
+			if e.Sub != "" {
+				prefix = "///" + e.Sub + "//"
+			}
+			if e.Name == "..." {
+				if e.Pkg == "" {
+					return prefix + "..."
+				}
+				return prefix + e.Pkg + "/..."
+			}
+			return prefix + e.Pkg + ":" + e.Name
+		}
 		k = 0
-		for _, e := range exprs {
-			for _, th := range thats {
-				got := toLabels([]L{e})[0].Includes(toLabels([]L{th})[0])
-				c.Oracle()
-				// what the expression denotes, read off its text
-				text := "//" + e.Pkg + ":" + e.Name
-				if e.Name == "..." {
-					text = "//" + e.Pkg + "/..."
-					if e.Pkg == "" {
-						text = "//..."
+		for _, e0 := range exprs {
+			for _, th0 := range thats {
+				for _, subs := range [][2]string{{"", ""}, {"s", "s"}, {"", "s"}, {"s", ""}, {"s", "s/t"}} {
+					e, th := e0, th0
+					e.Sub, th.Sub = subs[0], subs[1]
+					got := toLabel(e).Includes(toLabel(th))
+					k++
+					if subs[0] == subs[1] || got {
+						c.Oracle()
+						// what the expression denotes, read off its text
+						text := exprText(e)
+						js := map[string]any{"kind": "includes", "expr": e, "that": th, "includes": got}
+						if want := refDenotes("", text, th); got != want {
+							if subs[0] != subs[1] {
+								c.Fail("exclude-expression-ignores-subrepo", fmt.Sprintf("%s.Includes(%s)=%v although the two are in different repositories", text, toLabel(th), got), js)
+							} else {
+								c.Fail("exclude-expression-covers-wrong-targets", fmt.Sprintf("%s.Includes(%s)=%v, the expression denotes it: %v", text, toLabel(th), got, want), js)
+							}
+						}
 					}
-				}
-				js := map[string]any{"kind": "includes", "expr": e, "that": th, "includes": got}
-				if want := refDenotes(text, th.Pkg, th.Name); got != want {
-					c.Fail("exclude-expression-covers-wrong-targets", fmt.Sprintf("%s.Includes(//%s:%s)=%v, the expression denotes it: %v", text, th.Pkg, th.Name, got, want), js)
-				}
-				k++
-				if k%3 == 0 || c.Thor {
-					c.Case(lib.App("CIncl", coqL(e), coqL(th), lib.Bool(got)), js, fmt.Sprint("i", e, th), e.Pkg != th.Pkg)
+					if (subs[0] == "" && subs[1] == "" && k%15 == 0) || k%41 == 0 || c.Thor {
+						c.Case(lib.App("CIncl", coqL(e), coqL(th), lib.Bool(got)), map[string]any{"kind": "includes", "expr": e, "that": th, "includes": got}, fmt.Sprint("i", e, th), e.Pkg != th.Pkg)
+					}
 				}
 			}
 		}
 
-		// ---- 5. LooksLikeABuildLabel and TryParseBuildLabel
-		looks := []string{"", "/", "//", ":", "@", "@a", "@a:b", "@a//b", "a", "a:b", "a//b", "//a:b", ":x", "go,//a:b", "//a:b,go", "@*", "@z", "/a", "*//", " //a"}
+		// ---- 5. LooksLikeABuildLabel, TryParseBuildLabel (with a current package), parseMaybeRelativeBuildLabel, filepath.Join
+		looks := []string{"", "/", "//", ":", "@", "@a", "@a:b", "@a//b", "a", "a:b", "a//b", "//a:b", ":x", "go,//a:b", "//a:b,go", "@*", "@z", "/a", "*//", " //a", "///s//a:b", "@s//a/..."}
 		for _, x := range looks {
 			got := core.LooksLikeABuildLabel(x)
 			c.Case(lib.App("CLooks", lib.Str(x), lib.Bool(got)), map[string]any{"kind": "looks", "x": x, "looks": got}, "l"+x, got)
@@ -796,18 +1108,23 @@ func main() {
 		parses := []string{"", "/", "//", "//a", "//a/b", "//a/b:c", "//a:b", "//:x", "//...", "//a/...", "//a/b/...", "//a//...", "//a/", "//a//b", "//a:", "//a:...",
 			"//a:.x", "//a:x._build", "//a:x._test", "//a._build:x", "//a:b:c", "//a:b/c", "//a*:b", "//a:b*", "//a/...:x", "//.../a", "//a/.../...", "//a b:c d",
 			"//a:b,go", "//a:all", "//all", "//a/all", "a:b", "a", "/a:b", "//a/...x", "//a...", "//a/b...", "//....", "//a:..", "//a:x.", "//a\\b:c", "//a:{b}", "//a/b/c:lib_test",
-			"//a/....", "//a|b:c", "//a:b|c", "//$a:b", "//a/:b"}
-		for i, n := 0, c.Scale(60, 1500); i < n; i++ {
+			"//a/....", "//a|b:c", "//a:b|c", "//$a:b", "//a/:b",
+			// relative and subrepo forms
+			":x", ":all", ":...", ":", ":.x", ":a:b", ":a/b", ":x._build", "::", ":a b",
+			"@s", "@s:x", "@s//a:x", "@s//a", "@s//a/...", "@s//...", "@s//:x", "@s/t//a:x", "@s/t", "@s/", "@", "@:", "@:x", "@//a:x", "@s:", "@s://a", "@s:x//a", "@s//a//b", "@s//a/",
+			"@s///t//a:x", "@s//@t//a:x", "@s//a:b:c", "@s//a:...", "@s//:all", "@s:all", "@s:...", "@s@linux_amd64//a:x",
+			"///s//a:x", "///s//a", "///s//a/...", "///s", "///s/t", "///s:x", "///", "////", "/////a:x", "///s///t//a:x", "///s//", "///s//:x", "///s/t//a/b:c", "///s//a//b", "///:x"}
+		for i, n := 0, c.Scale(120, 2500); i < n; i++ {
 			r := c.Rng.Fork()
-			x := "//" + lib.Pick(r, pkgPool)
+			x := lib.Pick(r, []string{"//", "//", "//", ":", "///s//", "@s//", "@s", "///s/t//"}) + lib.Pick(r, pkgPool)
 			switch r.Intn(4) {
-			case 0:
+			case 0, 3:
 				x += ":" + lib.Pick(r, namePool)
 			case 1:
 				x += "/..."
 			}
 			// one random edit
-			chars := "/:.*a_|,"
+			chars := "/:.*a_|,@"
 			pos := r.Intn(len(x) + 1)
 			switch r.Intn(3) {
 			case 0:
@@ -819,60 +1136,161 @@ func main() {
 			}
 			parses = append(parses, x)
 		}
-		for _, x := range parses {
-			if strings.HasPrefix(x, ":") || strings.HasPrefix(x, "@") || strings.HasPrefix(x, "///") {
-				continue // forms outside the model (relative and subrepo labels)
-			}
-			l, err := core.TryParseBuildLabel(x, "", "")
-			out := "None"
-			if err == nil && l.Subrepo == "" {
-				out = lib.Some(coqL(L{l.PackageName, l.Name}))
-			} else if err == nil {
+		seenParse := map[string]bool{}
+		for i, x := range parses {
+			cur := curPool[i%len(curPool)]
+			if seenParse[cur+"\x00"+x] {
 				continue
 			}
-			c.Case(lib.App("CParse", lib.Str(x), out), map[string]any{"kind": "parse", "x": x, "ok": err == nil, "pkg": l.PackageName, "name": l.Name}, "p"+x, err == nil)
+			seenParse[cur+"\x00"+x] = true
+			l, err := core.TryParseBuildLabel(x, cur, "")
+			out := "None"
 			if err == nil {
+				out = lib.Some(coqL(L{l.Subrepo, l.PackageName, l.Name}))
+			}
+			c.Case(lib.App("CParse", lib.Str(cur), lib.Str(x), out), map[string]any{"kind": "parse", "cur": cur, "x": x, "ok": err == nil, "subrepo": l.Subrepo, "pkg": l.PackageName, "name": l.Name}, "p"+cur+"|"+x, err == nil)
+			if err == nil && cur == "" {
 				// the oracle's reading of expressions agrees with the parser on what a pattern denotes
+				if _, ok := refRead(cur, x); ok {
+					c.Oracle()
+					for _, th0 := range thats {
+						th := th0
+						th.Sub = l.Subrepo
+						if got, want := l.Includes(toLabel(th)), refDenotes(cur, x, th); got != want {
+							c.Fail("exclude-expression-covers-wrong-targets", fmt.Sprintf("--exclude %s: covers %s = %v, the expression denotes it: %v", x, toLabel(th), got, want),
+								map[string]any{"kind": "includes", "expr": x, "that": th, "includes": got})
+						}
+					}
+				}
+			}
+			// parseMaybeRelativeBuildLabel with plz started in cur
+			for _, cur2 := range []string{cur, lib.Pick(c.Rng, curPool)} {
+				if seenParse["rel"+cur2+"\x00"+x] || x == "-" {
+					continue
+				}
+				seenParse["rel"+cur2+"\x00"+x] = true
+				rl, ok := realRel(cur2, x)
+				out := "None"
+				if ok {
+					out = lib.Some(coqL(rl))
+				}
+				js := map[string]any{"kind": "relative", "started_in_package": cur2, "x": x, "ok": ok, "label": rl}
+				c.Case(lib.App("CRel", lib.Str(cur2), lib.Str(x), out), js, "r"+cur2+"|"+x, ok && cur2 != "")
+				// the documented reading: an expression the oracle can read must be accepted and read the same way
+				if want, rok := refRead(cur2, x); rok && core.LooksLikeABuildLabel(x) {
+					c.Oracle()
+					if !ok {
+						c.Fail("exclude-expression-misread", fmt.Sprintf("plz started in %q: --exclude %s is rejected, it denotes %v", cur2, x, want), js)
+					} else if rl != want && !(rl.Sub == want.Sub && rl.Pkg == want.Pkg && want.Name == rl.Name) {
+						cls := "exclude-expression-misread"
+						if strings.HasPrefix(x, ":") {
+							cls = "relative-exclude-not-resolved-against-current-package"
+						}
+						c.Fail(cls, fmt.Sprintf("plz started in %q: --exclude %s is read as %s, it denotes %s", cur2, x, toLabel(rl), toLabel(want)), js)
+					}
+				}
+			}
+		}
+		// filepath.Join as parseMaybeRelativeBuildLabel uses it, and the PackageMap keys
+		for _, a := range append([]string{"a/./b", "a/../b", "..", "a//b"}, curPool...) {
+			for _, b := range []string{"@s//a//b", "@s//a/", "@a", "@s//../x", "@s/..//..//..//y", "@s//./a", "@s//a/../..", "x", "../x", "./", "..", "@s//a//..//..//.."} {
+				got := filepath.Join(a, b)
+				c.Case(lib.App("CJoin", lib.Str(a), lib.Str(b), lib.Str(got)), map[string]any{"kind": "join", "a": a, "b": b, "joined": got}, "j"+a+"|"+b, a != "")
+			}
+		}
+		for _, sub := range append([]string{""}, subPool...) {
+			for _, pk := range pkgPool {
+				g := core.NewGraph()
+				g.AddPackage(core.NewPackageSubrepo(pk, sub))
+				for key := range g.PackageMap() {
+					c.Case(lib.App("CKey", lib.Str(sub), lib.Str(pk), lib.Str(key)), map[string]any{"kind": "key", "subrepo": sub, "pkg": pk, "key": key}, "k"+sub+"|"+pk, sub != "")
+				}
+			}
+		}
+
+		// ---- 6. SetIncludeAndExclude: the observed state (with stale Exclude and earlier ExcludeTargets), started in a package
+		for i, n := 0, c.Scale(100, 1500); i < n; i++ {
+			r := c.Rng.Fork()
+			g := genGraph(r)
+			if r.Chance(1, 3) {
+				g = withSubrepos(r, g)
+			}
+			cur := genCur(r, g)
+			inc, exc := genGroups(r, nil), genExcludes(r, cur, g, nil)
+			if r.Chance(1, 3) {
+				exc = append(exc, lib.Pick(r, []string{"@z", "@*", "a:b", "/a", "", "go,//a:b", "//a:b,go", ":lib", ":all", ":...", "@s//a//b", "@s//a/"}))
+			}
+			if !usable(cur, exc) {
+				continue
+			}
+			before := []L{}
+			if r.Chance(1, 2) {
+				before = append(before, L{"", lib.Pick(r, pkgPool), lib.Pick(r, namePool)})
+			}
+			startIn(cur)
+			state := &core.BuildState{Graph: core.NewGraph()}
+			state.Exclude = []string{"stale"}
+			state.ExcludeTargets = toLabels(before)
+			state.SetIncludeAndExclude(inc, exc)
+			js := map[string]any{"kind": "set", "started_in_package": cur, "before": before, "include": inc, "exclude": exc, "Include": state.Include, "Exclude": state.Exclude, "ExcludeTargets": fromLabels(state.ExcludeTargets)}
+			c.Case(lib.App("CSet", lib.Str(cur), coqLs(before), lib.StrList(inc), lib.StrList(exc), lib.StrList(state.Include), lib.StrList(state.Exclude), coqLs(fromLabels(state.ExcludeTargets))),
+				js, fmt.Sprint("s", cur, before, inc, exc), len(state.ExcludeTargets) > len(before) && len(state.Exclude) > 0)
+			// the oracle on the state: every exclude expression is read as documented, in order
+			if documentedForms(cur, exc) {
 				c.Oracle()
-				for _, th := range thats {
-					if got, want := l.Includes(toLabels([]L{th})[0]), refDenotes(x, th.Pkg, th.Name); got != want {
-						c.Fail("exclude-expression-covers-wrong-targets", fmt.Sprintf("--exclude %s: covers //%s:%s = %v, the expression denotes it: %v", x, th.Pkg, th.Name, got, want),
-							map[string]any{"kind": "includes", "expr": x, "that": th, "includes": got})
+				want := append([]L{}, before...)
+				for _, e := range exc {
+					if refIsExpression(e) {
+						l, _ := refRead(cur, e)
+						want = append(want, l)
+					}
+				}
+				if got := fromLabels(state.ExcludeTargets); !sameLs(got, want) {
+					cls := "exclude-expression-misread"
+					for j := range got {
+						if j < len(want) && got[j] != want[j] && want[j].Pkg == cur && got[j].Name == want[j].Name {
+							cls = "relative-exclude-not-resolved-against-current-package"
+						}
+					}
+					c.Fail(cls, fmt.Sprintf("plz started in %q, --exclude %q: ExcludeTargets = %v, the expressions denote %v", cur, exc, state.ExcludeTargets, toLabels(want)), js)
+				}
+			}
+		}
+
+		// ---- 6b. one target through BuildState.ShouldInclude with a relative exclude expression: the target of the current
+		// package is rejected, its namesake in the root package (and in every other package) is not
+		for _, cur := range []string{"", "a", "a/b", "x/y"} {
+			for _, e := range []string{":lib", ":all", ":..."} {
+				for _, th := range []L{{"", cur, "lib"}, {"", "", "lib"}, {"", cur, "other"}, {"", cur + "/sub", "lib"}, {"", "zz", "lib"}, {"s", cur, "lib"}} {
+					th.Pkg = strings.TrimPrefix(th.Pkg, "/")
+					startIn(cur)
+					state := &core.BuildState{Graph: core.NewGraph()}
+					state.SetIncludeAndExclude(nil, []string{e})
+					t := T{Name: th.Name, Labels: []string{"go"}}
+					got := state.ShouldInclude(realTarget(th.Sub, th.Pkg, t))
+					js := map[string]any{"kind": "state", "started_in_package": cur, "exclude": []string{e}, "target": th, "selected": got}
+					c.Case(lib.App("CState", lib.Str(cur), lib.Str(th.Sub), lib.Str(th.Pkg), coqT(t), "[]", lib.StrList([]string{e}), lib.Bool(got)), js, fmt.Sprint("st", cur, e, th), cur != "")
+					c.Oracle()
+					if want := !refDenotes(cur, e, th); got != want {
+						cls := "relative-exclude-not-resolved-against-current-package"
+						if th.Sub != "" {
+							cls = "exclude-expression-ignores-subrepo"
+						}
+						c.Fail(cls, fmt.Sprintf("plz started in %q, --exclude %s: ShouldInclude(%s) = %v, documented %v", cur, e, toLabel(th), got, want), js)
 					}
 				}
 			}
 		}
 
-		// ---- 6. SetIncludeAndExclude: the observed state (with stale Exclude and earlier ExcludeTargets)
-		for i, n := 0, c.Scale(60, 1000); i < n; i++ {
-			r := c.Rng.Fork()
-			g := genGraph(r)
-			inc, exc := genGroups(r, nil), genExcludes(r, g, nil)
-			if r.Chance(1, 3) {
-				exc = append(exc, lib.Pick(r, []string{"@z", "@*", "a:b", "/a", "", "go,//a:b", "//a:b,go"}))
-			}
-			if !usable(exc) {
-				continue
-			}
-			before := []L{}
-			if r.Chance(1, 2) {
-				before = append(before, L{lib.Pick(r, pkgPool), lib.Pick(r, namePool)})
-			}
-			state := &core.BuildState{Graph: core.NewGraph()}
-			state.Exclude = []string{"stale"}
-			state.ExcludeTargets = toLabels(before)
-			state.SetIncludeAndExclude(inc, exc)
-			c.Case(lib.App("CSet", coqLs(before), lib.StrList(inc), lib.StrList(exc), lib.StrList(state.Include), lib.StrList(state.Exclude), coqLs(fromLabels(state.ExcludeTargets))),
-				map[string]any{"kind": "set", "before": before, "include": inc, "exclude": exc, "Include": state.Include, "Exclude": state.Exclude, "ExcludeTargets": fromLabels(state.ExcludeTargets)},
-				fmt.Sprint("s", before, inc, exc), len(state.ExcludeTargets) > len(before) && len(state.Exclude) > 0)
-		}
-
 		// ---- 7. expansions
-		nExp := c.Scale(700, 12000)
-		nOrig := c.Scale(60, 400)
+		nExp := c.Scale(800, 12000)
+		nOrig := c.Scale(100, 600)
 		for i := 0; i < nExp+nOrig; i++ {
 			r := c.Rng.Fork()
 			g := genGraph(r)
+			if r.Chance(1, 3) {
+				g = withSubrepos(r, g)
+			}
 			var aim *T
 			for _, p := range g {
 				if len(p.Targets) > 0 {
@@ -880,8 +1298,9 @@ func main() {
 					break
 				}
 			}
-			in := input{Kind: "expand", Graph: g, Include: genGroups(r, aim), Exclude: genExcludes(r, g, aim), Labels: genPseudo(r, g), NeedTests: r.Chance(1, 5)}
-			if !usable(in.Exclude) {
+			cur := genCur(r, g)
+			in := input{Kind: "expand", Cur: cur, Graph: g, Include: genGroups(r, aim), Exclude: genExcludes(r, cur, g, aim), Labels: genPseudo(r, g), NeedTests: r.Chance(1, 5)}
+			if !usable(cur, in.Exclude) {
 				continue
 			}
 			var got []L
@@ -893,8 +1312,8 @@ func main() {
 				for _, l := range in.Labels {
 					if l.Name == "..." {
 						for _, p := range g {
-							if refCovers(l, p.Pkg) {
-								ls = append(ls, L{p.Pkg, "all"})
+							if refCovers(l, p) {
+								ls = append(ls, L{p.Sub, p.Pkg, "all"})
 							}
 						}
 					} else {
@@ -903,56 +1322,46 @@ func main() {
 				}
 				in.Labels = ls
 				got = realOriginals(in)
-				// documented: a requested label that an exclude expression covers is dropped as a whole
-				kept := []L{}
-				for _, l := range in.Labels {
-					dropped := false
-					for _, e := range in.Exclude {
-						if refIsExpression(e) {
-							if l.Name == "all" {
-								// the expression must denote the whole package
-								if refDenotes(e, l.Pkg, "\x00any") {
-									dropped = true
-								}
-							} else if refDenotes(e, l.Pkg, l.Name) {
-								dropped = true
-							}
-						}
-					}
-					if !dropped {
-						kept = append(kept, l)
-					}
-				}
-				chk := in
-				chk.Labels = kept
-				checkExpansion(c, chk, got)
 			} else {
 				got = realExpand(in)
-				checkExpansion(c, in, got)
 			}
+			checkExpansion(c, in, got)
 			in.Out = got
 			total := 0
 			for _, p := range g {
 				for _, l := range in.Labels {
-					if refCovers(l, p.Pkg) && (l.Name == "all" || l.Name == "...") {
+					if refCovers(l, p) && (l.Name == "all" || l.Name == "...") {
 						total += len(p.Targets)
 						break
 					}
 				}
 			}
 			nontriv := len(in.Include)+len(in.Exclude) > 0 && len(got) > 0 && len(got) < total
-			c.Case(lib.App(ctor, coqGraph(g), lib.StrList(in.Include), lib.StrList(in.Exclude), coqLs(in.Labels), lib.Bool(in.NeedTests), coqLs(got)),
-				in, fmt.Sprint("e", in.Kind, g, in.Include, in.Exclude, in.Labels, in.NeedTests), nontriv)
+			c.Case(lib.App(ctor, lib.Str(cur), coqGraph(g), lib.StrList(in.Include), lib.StrList(in.Exclude), coqLs(in.Labels), lib.Bool(in.NeedTests), coqLs(got)),
+				in, fmt.Sprint("e", in.Kind, cur, g, in.Include, in.Exclude, in.Labels, in.NeedTests), nontriv)
 			c.HistN("packages", len(g))
 			c.HistN("selected", min(len(got), 8))
-			nex := 0
+			nex, nrel, nsub := 0, 0, 0
 			for _, e := range in.Exclude {
 				if refIsExpression(e) {
 					nex++
+					if strings.HasPrefix(e, ":") {
+						nrel++
+					}
+					if strings.HasPrefix(e, "@") || strings.HasPrefix(e, "///") {
+						nsub++
+					}
 				}
 			}
 			c.HistN("exclude_expressions", nex)
+			c.HistN("relative_exclude_expressions", nrel)
+			c.HistN("subrepo_exclude_expressions", nsub)
+			c.Hist("started_in_root", fmt.Sprint(cur == ""))
+			c.Hist("graph_has_subrepo_packages", fmt.Sprint(hasSubrepos(g, nil)))
 			c.HistN("include_args", len(in.Include))
 		}
+
+		// ---- 8. end to end
+		endToEnd(c)
 	})
 }
